@@ -318,6 +318,14 @@ impl InstructionIR {
                     lambda = b.arg() - alpha + std::f64::consts::PI; // Equivalent to b.arg() - a.arg() + pi
                 }
                 
+                // NaN and infinities have no OpenQASM literal
+                if !theta.is_finite() || !phi.is_finite() || !lambda.is_finite() {
+                    return Err(CompilerError::InvalidOperands(
+                        format!("{},{},{}", theta, phi, lambda),
+                        "U".to_string(),
+                    ));
+                }
+
                 let base_comment = format!(
                     "Custom Unitary U({}, {}, {}, {}) on qubit {}",
                     Self::format_complex(a),
